@@ -2225,6 +2225,7 @@ def scan_regions(src):
     give no region of their own: write hand-picked cases with parenthesised blocks."""
     typed, untyped, own, holes = [], [], [], []
     stack = []        # [open_token, offset, [(offset, char) of ' : ', ' | ', bare '=' directly inside the group]]
+    braces = []
     instr_stack = []
     i, n = 0, len(src)
     instr = False
@@ -2260,6 +2261,8 @@ def scan_regions(src):
         elif c in ")]}":
             if stack:
                 o, a, seps = stack.pop()
+                if o == "{" and c == "}":
+                    braces.append((a, i + 1, seps))
                 if o == "%{":
                     instr = instr_stack.pop()
                 elif o == "(" and c == ")" and seps and seps[-1][1] != "=":
@@ -2273,12 +2276,24 @@ def scan_regions(src):
                     else:
                         untyped.append((a, i + 1))
                         holes.append((ts, i))
+        elif stack and stack[-1][0] == "{":
+            if c in ":|" and src[i - 1:i] == " " and src[i + 1:i + 2] == " ":
+                stack[-1][2].append((i, c))
         elif stack and stack[-1][0] == "(":
             if c in ":|" and src[i - 1:i] == " " and src[i + 1:i + 2] == " ":
                 stack[-1][2].append((i, c))
             elif c == "=" and src[i - 1:i] not in ("=", "<", ">", "!") and src[i + 1:i + 2] not in ("=", ">"):
                 stack[-1][2].append((i, "="))
         i += 1
+    # destructuring patterns: a brace group followed by `=>` or `=` (and the groups nested in one).  The
+    # annotations of their fields are enforced as contracts on the matched value: blame for one of them is
+    # blame of whoever supplied the value, like for the contract of a hole
+    pats = [(a, b) for (a, b, _) in braces if re.match(r"\s*(=>|=(?![=>]))", src[b:])]
+    for (a, b, seps) in braces:
+        if any(pa <= a and b <= pb for (pa, pb) in pats):
+            for (k, _) in seps:
+                m = re.match(r"\s*[^,}?=]*", src[k + 1:b])
+                holes.append((k + 1, k + 1 + (m.end() if m else 0)))
     return typed, untyped, own, holes
 
 
